@@ -39,6 +39,9 @@ def sym_float(s):
 def sym_int(s, *a):
     if isinstance(s, SymInt):
         return s
+    if isinstance(s, Sym):
+        r = s.__int__()  # int(float) of a symbolic value (SymInt when it is an integer that travelled through a double)
+        return r
     if isinstance(s, str):
         key = s.strip()
         if key in CTX.tokens:
